@@ -183,7 +183,7 @@ theorem extends_terminates {E : Env} (hE : FuelFree E) {order : List String} {di
 (C01/C04 own those panics; with the C04 merge model the special mergers do panic on shapes the schema
 would reject) -/
 def PanicFree (E : Env) : Prop :=
-  (∀ b svc s, E.extend b svc ≠ .panic s) ∧ (∀ f s, fsLookup f E.fs ≠ some (.panic s))
+  (∀ b svc s, E.extend b svc ≠ .panic s) ∧ (∀ f s, ¬ fsPanics E.fs f s)
 
 theorem PanicFree.fuelFree {E : Env} (h : PanicFree E) : FuelFree E :=
   ⟨fun b s => h.1 b s fuelMark, fun f s hf _ => h.2 f s hf⟩
@@ -338,7 +338,7 @@ theorem applyExtends_reject_perm {E : Env} {order₁ order₂ : List String} {di
 
 /-- the environment of a real load satisfies the side condition of `extends_terminates` -/
 theorem realEnv_fuelFree (mainFile : String) (fs : FS)
-    (hfs : ∀ f s, fsLookup f fs = some (.panic s) → s ≠ fuelMark) : FuelFree (realEnv mainFile fs) := by
+    (hfs : ∀ f s, fsPanics fs f s → s ≠ fuelMark) : FuelFree (realEnv mainFile fs) := by
   refine ⟨fun b s h => ?_, hfs⟩
   simp only [realEnv, mergeExtend] at h
   split at h
@@ -353,7 +353,7 @@ theorem realEnv_fuelFree (mainFile : String) (fs : FS)
 
 /-- termination with the real merge step: whatever the files contain, `ApplyExtends` comes back -/
 theorem extends_terminates_real (mainFile : String) (fs : FS)
-    (hfs : ∀ f s, fsLookup f fs = some (.panic s) → s ≠ fuelMark) {order : List String} {dict : KVs}
+    (hfs : ∀ f s, fsPanics fs f s → s ≠ fuelMark) {order : List String} {dict : KVs}
     (hord : ∀ S, lookup "services" dict = some (.map S) → Visits order S) :
     applyExtendsOrd (realEnv mainFile fs) order dict ≠ .panic fuelMark :=
   extends_terminates (realEnv_fuelFree mainFile fs hfs) hord
@@ -431,15 +431,21 @@ example : PanicFree Neg.env := by
   constructor
   · intro b svc s h; cases h
   · intro f s h
-    simp only [Neg.env, fsLookup] at h
-    split at h <;> cases h
+    obtain ⟨r, h1, h2⟩ := h
+    simp only [Neg.env, fsLookup] at h1
+    split at h1
+    · injection h1 with h1; subst h1; cases h2
+    · cases h1
 
 example : FuelFree Neg.env := by
   constructor
   · intro b s h; cases h
   · intro f s h
-    simp only [Neg.env, fsLookup] at h
-    split at h <;> cases h
+    obtain ⟨r, h1, h2⟩ := h
+    simp only [Neg.env, fsLookup] at h1
+    split at h1
+    · injection h1 with h1; subst h1; cases h2
+    · cases h1
 
 /-- a cyclic chain exists (a service extending itself), so `cycle_err` is not vacuous -/
 example : Cyclic Neg.env ([("a", .map [("extends", .str "a")])], "a") :=
